@@ -119,7 +119,11 @@ impl Props {
             for matching_key in map
                 .keys()
                 .filter_map(Value::as_str)
-                .filter(|k| k.starts_with(&key) && k.len() > key.len())
+                // the key must continue with a new path segment, a name that merely
+                // shares a textual prefix with this path does not address this module
+                .filter(|k| {
+                    k.starts_with(&key) && k.len() > key.len() && k.as_bytes()[key.len()] == b'.'
+                })
             {
                 let Some(entry) = map.get(matching_key) else {
                     continue;
